@@ -415,3 +415,16 @@ pub proof fn lemma_mfi_range(p: real, n: real)
     let q = p / (p + n);
     assert(0real <= q * 100real <= 100real) by(nonlinear_arith) requires 0real <= q <= 1real;
 }
+// the two slice loops of EfficiencyRatio::next walk the chronological window
+pub proof fn lemma_er_path(d: Seq<f64>, i0: int, c0: int, f: real)
+    requires ring_ok(d, i0, c0)
+    ensures
+        path_len(f, ring_win(d, i0, c0)) == path_len(f, d.subrange(i0, c0)) + path_len(path_end(f, d.subrange(i0, c0)), d.subrange(0, i0)),
+        path_end(f, ring_win(d, i0, c0)) == path_end(path_end(f, d.subrange(i0, c0)), d.subrange(0, i0)),
+        rabs(f - path_end(f, ring_win(d, i0, c0))) <= path_len(f, ring_win(d, i0, c0)),
+        path_len(f, ring_win(d, i0, c0)) >= 0real,
+{
+    lemma_path_concat(f, d.subrange(i0, c0), d.subrange(0, i0));
+    assert(d.subrange(i0, c0) + d.subrange(0, i0) =~= ring_win(d, i0, c0));
+    lemma_path_triangle(f, ring_win(d, i0, c0));
+}
